@@ -115,3 +115,8 @@ impl Connection {
         }
     }
 }
+
+// Verification hooks (harnesses live in /verif/hooks); inert unless built with --cfg rdest_verif or by cargo-kani
+#[cfg(any(kani, rdest_verif))]
+#[path = "/verif/hooks/connection.rs"]
+mod verif_hooks;
